@@ -20,6 +20,7 @@ import (
 	"google.golang.org/protobuf/proto"
 
 	"github.com/obolnetwork/charon/app/featureset"
+	"github.com/obolnetwork/charon/app/log"
 	"github.com/obolnetwork/charon/core"
 	"github.com/obolnetwork/charon/core/consensus/instance"
 	"github.com/obolnetwork/charon/core/consensus/timer"
@@ -47,7 +48,57 @@ type c04script struct {
 	Slow      []bool     `json:"slow_sender"`
 	LateInput []int      `json:"late_input_quarters"`
 	MapRot    int        `json:"maprot"`
+	// wide family (timing alphabets beyond the two-class one): per member start offset in twentieths of the first round
+	// timeout (overrides Late when set) and per sender latency class 0 = delta, 1 = 3*delta, 2 = 0.3 * shortest round timeout
+	Late20 []int `json:"late_start_twentieths,omitempty"`
+	Lat    []int `json:"latency_class,omitempty"`
 }
+
+// c04lat returns the one-way latency of a sender.
+func c04lat(sc c04script, m int) time.Duration {
+	if len(sc.Lat) > m {
+		switch sc.Lat[m] {
+		case 1:
+			return 3 * c04delta
+		case 2:
+			if sc.Timer == "linear" { // shortest round timeout 400ms
+				return 3 * c04delta
+			}
+			return 300 * time.Millisecond // shortest round timeout 1s
+		}
+	}
+	if sc.Slow[m] {
+		return 3 * c04delta
+	}
+	return c04delta
+}
+
+func c04lateOff(sc c04script, m int) time.Duration {
+	if len(sc.Late20) > m && sc.Late20[m] > 0 {
+		return c04firstRound(sc) * time.Duration(sc.Late20[m]) / 20
+	}
+	return time.Duration(sc.Late[m]) * (c04firstRound(sc) / 4)
+}
+
+// c04faulty returns the members that are faulty in the sense of the statement (crash, silent, late start, late proposal).
+func c04faulty(sc c04script) map[int]bool {
+	f := map[int]bool{}
+	for _, c := range sc.Crashes {
+		f[c.Member] = true
+	}
+	for m := 0; m < sc.N; m++ {
+		if c04lateOff(sc, m) > 0 || sc.LateInput[m] > 0 {
+			f[m] = true
+		}
+	}
+	return f
+}
+
+// c04dl is the deadliner of the per-member receive handler: the duty never expires during a run.
+type c04dl struct{}
+
+func (c04dl) Add(core.Duty) core.DeadlineStatus { return core.DeadlineScheduled }
+func (c04dl) C() <-chan core.Duty               { return nil }
 
 func (s c04script) String() string {
 	return fmt.Sprintf("n=%d timer=%s/%v duty=%d/%d crashes=%v late=%v slow=%v lateinput=%v rot=%d", s.N, s.Timer, s.PropTO, s.DutyType, s.Slot, s.Crashes, s.Late, s.Slow, s.LateInput, s.MapRot)
@@ -79,6 +130,8 @@ type c04member struct {
 	decidedRnd int64
 	decidedVal string
 	unjust     []string
+	rejected   []string // messages of other (honest) members refused by this member's receive handler
+	cons       *Consensus
 	runErr     error
 	exited     bool
 }
@@ -142,10 +195,7 @@ func (b c04bcast) Broadcast(_ context.Context, pb *pbv1.QBFTConsensusMsg) error 
 			}
 		}
 	}
-	lat := c04delta
-	if n.sc.Slow[m.idx] {
-		lat = 3 * c04delta
-	}
+	lat := c04lat(n.sc, m.idx)
 	for _, j := range targets {
 		n.seq++
 		// distinct arrival instants: no two deliveries and no delivery and timer coincide
@@ -163,17 +213,13 @@ func (b c04bcast) Broadcast(_ context.Context, pb *pbv1.QBFTConsensusMsg) error 
 			case <-n.ctx.Done():
 				return
 			}
-			values, err := valuesByHash(wire.GetValues())
-			if err != nil {
-				return
-			}
-			msg, err := newMsg(wire.GetMsg(), wire.GetJustification(), values)
-			if err != nil {
-				return
-			}
-			select {
-			case dst.outer <- msg:
-			case <-n.ctx.Done():
+			// the recipient's real receive handler: signature and justification verification, limits, conversion,
+			// enqueueing into the duty's receive buffer (= dst.outer)
+			_, _, err := dst.cons.handle(n.ctx, "", wire)
+			if err != nil && n.ctx.Err() == nil {
+				dst.rejected = append(dst.rejected, fmt.Sprintf("%v of member %d round %d (%d justifications, %d values): %s",
+					qbft.MsgType(wire.GetMsg().GetType()), wire.GetMsg().GetPeerIdx(), wire.GetMsg().GetRound(),
+					len(wire.GetJustification()), len(wire.GetValues()), c04errClass(err)))
 			}
 		}()
 	}
@@ -183,6 +229,17 @@ func (b c04bcast) Broadcast(_ context.Context, pb *pbv1.QBFTConsensusMsg) error 
 		m.cancel()
 	}
 	return nil
+}
+
+func c04errClass(err error) string {
+	s := err.Error()
+	if i := strings.IndexAny(s, ":{"); i > 0 {
+		s = s[:i]
+	}
+	if len(s) > 60 {
+		s = s[:60]
+	}
+	return strings.ReplaceAll(strings.TrimSpace(s), " ", "-")
 }
 
 func c04timer(sc c04script, duty core.Duty) timer.RoundTimer {
@@ -229,7 +286,12 @@ func c04run(t *testing.T, sc c04script) (res c04result) {
 		net := &c04net{sc: sc, t0: time.Now(), ctx: ctx}
 		for i := 0; i < sc.N; i++ {
 			mctx, mc := context.WithCancel(ctx)
-			net.members = append(net.members, &c04member{idx: i, ctx: mctx, cancel: mc, outer: make(chan Msg, instance.RecvBufferSize), round: 1})
+			cons := &Consensus{pubkeys: map[int64]*k1.PublicKey{}, gaterFunc: func(core.Duty) bool { return true }, deadliner: c04dl{}, dropFilter: log.Filter()}
+			cons.mutable.instances = make(map[core.Duty]*instance.IO[Msg])
+			for j := 0; j < sc.N; j++ {
+				cons.pubkeys[int64(j)] = c04key(j).PubKey()
+			}
+			net.members = append(net.members, &c04member{idx: i, ctx: mctx, cancel: mc, outer: cons.getRecvBuffer(duty), cons: cons, round: 1})
 		}
 		for _, c := range sc.Crashes {
 			if c.At == 0 {
@@ -238,6 +300,7 @@ func c04run(t *testing.T, sc c04script) (res c04result) {
 			}
 		}
 		q := c04firstRound(sc) / 4
+		_ = q
 		value := &pbv1.UnsignedDataSet{Set: map[string][]byte{"0xabc": []byte("proposal")}}
 		done := make(chan int, sc.N)
 		running := 0
@@ -249,7 +312,7 @@ func c04run(t *testing.T, sc c04script) (res c04result) {
 			running++
 			go func() {
 				defer func() { m.exited = true; done <- m.idx }()
-				if off := time.Duration(sc.Late[m.idx]) * q; off > 0 {
+				if off := c04lateOff(sc, m.idx); off > 0 {
 					select {
 					case <-time.After(off + time.Duration(m.idx+1)*13*time.Microsecond):
 					case <-m.ctx.Done():
@@ -369,10 +432,21 @@ func c04check(sc c04script, r c04result) (sigs, descs []string) {
 	for _, c := range sc.Crashes {
 		crashed[c.Member] = true
 	}
+	// the termination clause is conditional on at most f faulty members (crashed, silent, late, proposal late); the other
+	// clauses (no honest message refused, agreement) are judged in every script
+	termination := len(c04faulty(sc)) <= (sc.N-1)/3
+	wideLat := false
+	for _, l := range sc.Lat {
+		wideLat = wideLat || l == 2
+	}
 	vals := map[string]bool{}
 	for _, m := range r.members {
 		if len(m.unjust) > 0 {
 			bad("kind=honest-message-rejected-as-unjustified", "member %d rejected as unjustified: %v", m.idx, m.unjust)
+		}
+		if len(m.rejected) > 0 {
+			cls := m.rejected[0][strings.LastIndex(m.rejected[0], ": ")+2:]
+			bad("kind=honest-message-refused-by-receive-handler err="+cls, "member %d's receive handler refused: %v", m.idx, m.rejected)
 		}
 		if crashed[m.idx] {
 			continue
@@ -381,11 +455,16 @@ func c04check(sc c04script, r c04result) (sigs, descs []string) {
 			bad("kind=instance-error", "member %d: consensus instance ended with %v", m.idx, m.runErr)
 			continue
 		}
+		if m.decided {
+			vals[m.decidedVal] = true
+		}
+		if !termination {
+			continue
+		}
 		if !m.decided {
 			bad("kind=running-member-never-decided", "member %d kept running but had not decided after %s (round %d)", m.idx, r.horizon, m.round)
 			continue
 		}
-		vals[m.decidedVal] = true
 		// one full leader rotation after the last fault
 		if m.decidedRnd > r.faultR+int64(sc.N) {
 			bad("kind=decided-later-than-one-rotation", "member %d decided in round %d; the last fault happened at %s when the furthest member was in round %d (n=%d)", m.idx, m.decidedRnd, r.faultAt, r.faultR, sc.N)
@@ -395,7 +474,7 @@ func c04check(sc c04script, r c04result) (sigs, descs []string) {
 			bound += c04timeout(sc, k)
 		}
 		bound = r.faultAt + bound + bound/2 + time.Second
-		if m.decidedAt > bound {
+		if m.decidedAt > bound && !wideLat {
 			bad("kind=decided-later-than-one-rotation time", "member %d decided at %s; bound %s (last fault at %s in round %d)", m.idx, m.decidedAt, bound, r.faultAt, r.faultR)
 		}
 	}
@@ -590,6 +669,89 @@ func TestVerifC04(t *testing.T) {
 							}
 						}
 						run(sc)
+					}
+					// Wide family: the clauses that hold unconditionally (no message of an honest member is refused by another
+					// honest member's receive handler or reported unjustified, agreement, no instance error) over a finer timing
+					// alphabet, and the termination clause wherever at most f members are faulty: no crash or every crash kind of
+					// every member x every assignment, to at most D of the other members, of a start offset in {0, 1/4, 3/4, 19/20} of
+					// the first round and a latency class in {delta, 3*delta, 0.3 * shortest round timeout}.
+					wideD := 0
+					switch {
+					case n == 4 && th:
+						wideD = 3
+					case n == 4:
+						wideD = 2
+					case n == 5 && th:
+						wideD = 2
+					case n == 5 && dt == int(core.DutyAttester):
+						wideD = 1
+					case th:
+						wideD = 1
+					}
+					if dt == int(core.DutyProposer) && !th {
+						wideD = 0
+					}
+					if wideD > 0 {
+						type dev struct{ late20, lat int }
+						var devs []dev
+						for _, l20 := range []int{0, 5, 15, 19} {
+							for lat := 0; lat <= 2; lat++ {
+								if (l20 == 0 && lat == 0) || (lat == 2 && tm == "linear") {
+									continue
+								}
+								devs = append(devs, dev{l20, lat})
+							}
+						}
+						crashOpts := []*c04crash{nil}
+						for m := 0; m < n; m++ {
+							for _, k := range kinds {
+								if k.kind == "crash" {
+									crashOpts = append(crashOpts, &c04crash{m, k.at, k.reach})
+								}
+							}
+						}
+						for _, co := range crashOpts {
+							var rest []int
+							for m := 0; m < n; m++ {
+								if co == nil || co.Member != m {
+									rest = append(rest, m)
+								}
+							}
+							for d := 1; d <= wideD && d <= len(rest); d++ {
+								for _, pick := range c04subsets(len(rest), d) {
+									idx := make([]int, d)
+									for {
+										sc := base()
+										sc.Late20, sc.Lat = make([]int, n), make([]int, n)
+										if co != nil {
+											sc.Crashes = []c04crash{*co}
+										}
+										for i, pi := range pick {
+											sc.Late20[rest[pi]], sc.Lat[rest[pi]] = devs[idx[i]].late20, devs[idx[i]].lat
+										}
+										if r.Expired() {
+											return
+										}
+										run(sc)
+										r.Count("wide_family_scripts", 1)
+										if len(c04faulty(sc)) > f {
+											r.Count("wide_family_scripts_judged_without_termination_clause", 1)
+										}
+										i := 0
+										for ; i < d; i++ {
+											idx[i]++
+											if idx[i] < len(devs) {
+												break
+											}
+											idx[i] = 0
+										}
+										if i == d {
+											break
+										}
+									}
+								}
+							}
+						}
 					}
 					if th && n == 4 {
 						for rot := 1; rot <= 2; rot++ {
